@@ -44,7 +44,9 @@ else:
 for i in range(1, 21):
     pid = f'C{i:02d}'
     t = th.get(pid)
-    rows.append(f"| {pid} | {q.get(pid, '-')} | {('rc=%s, %s s; %s' % (t.group(2), t.group(3), t.group(5).replace('|','/'))) if t else '-'} |")
+    qq = q.get(pid)
+    qs = ('rc=%s, %s s; %s' % (qq['rc'], qq['wall_s'], qq['line'].replace('|', '/'))) if isinstance(qq, dict) else '-'
+    rows.append(f"| {pid} | {qs} | {('rc=%s, %s s; %s' % (t.group(2), t.group(3), t.group(5).replace('|','/'))) if t else '-'} |")
 tail = tail.replace('@@COST_TABLE@@', '\n'.join(rows))
 ct = open(f'{V}/tools/ctest_final.txt').read().strip() if os.path.exists(f'{V}/tools/ctest_final.txt') else 'see tools/ctest_final.txt'
 tail = tail.replace('@@CTEST@@', ct.replace('\n', '; '))
